@@ -35,7 +35,7 @@ func c18ExpectedCodes(applied string) []string {
 	case "aliasDup":
 		// the second annotation's own template name is left unbound as well; either rule may be the one reported
 		return []string{"linker-duplicate-path-alias-ref|linker-route-missing-path-reference"}
-	case "aliasWrongType":
+	case "aliasWrongType", "aliasWrongTypeAll", "aliasWrongTypeGhost":
 		return []string{"annotation-properties-invalid-value-for-key"}
 	case "dupTemplateName":
 		return []string{"linker-duplicate-url-parameter"}
